@@ -177,7 +177,10 @@ def load_encode(R):
         return VObj(r, "FunctionReference")
     R.obj_method_hooks["fn_reference"] = fn_reference_hook
     R.contract(A + "_encode", prop="C04", types={"arg": TObj()}, returns=TObj(),
-               ensures=["ENC1(result, arg)", "[effect] encwire(result, arg)", "[effect] same(result, enc(arg))"], raises={"ValueError": []},
+               ensures=["ENC1(result, arg)", "[effect] encwire(result, arg)", "[effect] same(result, enc(arg))",
+                        # from the property ("differs whenever any bound value [or] its type ... differ"): the encoding of a user dictionary is never one of the
+                        # tagged encodings (date / datetime / function reference), else a dict and a date get one key and the body receives the other value
+                        "implies(isinstance(arg, dict), '_mementoType' not in result)"], raises={"ValueError": []},
                labels={"dict_literals_dynamic": True, "entry_axioms": ["ENC_CLASS_FACTS(arg)"], "touch_result": True})
 
 
